@@ -40,6 +40,8 @@ def loss_lml_terminal_values(*, tcoeff_index=0):
         if not tree.tree_all(shapes_equal):
             raise ValueError(msg)
 
+        _verify_data_container(u, marginals.mean[tcoeff_index])
+
         model = marginals.to_derivative(tcoeff_index, std)
         marg = model.marginalise(marginals)
 
@@ -87,6 +89,11 @@ def loss_lml_timeseries(
         if not tree.tree_all(shapes_equal):
             raise ValueError(msg)
 
+        u_expected = tree.tree_map(
+            lambda s: np.stack([s] * N), posterior.marginal.mean[tcoeff_index]
+        )
+        _verify_data_container(u, u_expected)
+
         # Remove the filtering distributions from the posterior
         posterior = posterior.remove_filtering_distributions()
 
@@ -103,6 +110,25 @@ def loss_lml_timeseries(
         )
 
     return loss
+
+
+def _verify_data_container(u, u_expected, /):
+    """Raise an error if the data does not look like the observed Taylor coefficient.
+
+    Without this check, data with a single entry (or a missing state-axis)
+    would be broadcast silently against the mean of the marginal.
+    """
+    msg = "The data container differs from what was expected."
+    msg += f" Expected: shape={tree.tree_map(np.shape, u_expected)}."
+    msg += f" Received: shape={tree.tree_map(np.shape, u)}."
+
+    try:
+        shapes_equal = tree.tree_map(lambda a, b: a.shape == b.shape, u, u_expected)
+    except Exception as error:
+        raise ValueError(msg) from error
+
+    if not tree.tree_all(shapes_equal):
+        raise ValueError(msg)
 
 
 C = TypeVar("C", bound=Sequence)
